@@ -59,9 +59,10 @@ CLAIMS = {
             "the map-level processing of the second decode is shown to reproduce the stored values (sort = identity "
             "on the sorted list, flags re-derived are set - C02_combo_chain_of_chronological_input -, SamplePoint::apply "
             "touches only what carry erases; node / own-sample image invariants C02_decoded_slider_nodes_image); "
-            "non-vacuity on a decoded map with all four object kinds (C02_round_trip_example). NOT mechanised: the "
-            "velocity of the re-read slider inside the top-level statement (C02_slider_velocity_round_trip is separate), "
-            "a slider combo offset without the new-combo bit, the time condition between the proved classes and D33 "
+            "slider velocities of the second decode equal (C02_round_trip_velocities); non-vacuity on a decoded map with "
+            "all four object kinds (C02_round_trip_example). NOT mechanised: a slider combo offset without the new-combo "
+            "bit, the time condition between the proved classes (exact difference, incl. Sterbenz start/2 <= end <= "
+            "2*start) and D33 "
             "- covered by the `enc` correspondence (decoder, curve, slider-event and encoder models composed, rendered with Rust's Display, "
             "compared with encode_to_string byte for byte) and by the oracle. D2 and D16 were found by this package's "
             "checks and repaired (4262585, d78b06a). Oracle: field-by-field comparison of decode(x) and "
